@@ -108,38 +108,55 @@ def fam_events(rng, n, thorough=False):
 
 
 def fam_events_gated(rng, n):
-    """Close lands while a reader is parked just before its open event / a frame event (the narrow windows)."""
+    """Close lands while a reader is parked just before its open event / a frame event (the narrow windows).
+    The points are visited in turn; the transport is pipe-like (data queued before Close stays readable); in every
+    second scenario the consumer is stopped while Close starts, so that the parked event is certainly dropped, and
+    resumed afterwards - anything delivered then without its predecessors is a violation."""
     out = []
+    points = ["rd.pushOpen", "rd.pushEvent", "rd.pushOpen", "run.pushClose", "rd.pushOpen", "rd.read"]
     for i in range(n):
         t = Tags(5000 * (i + 1))
-        point = rng.choice(["rd.pushOpen", "rd.pushEvent", "run.pushClose", "rd.read"])
+        point = points[i % 6]
+        pause = (i // 6) % 2 == 0
         steps = []
         c = conf()
         if point == "rd.pushOpen":
             steps.append({"op": "hold_at_start", "point": point, "ep": 0})
-            for j in range(3):
+            for j in range(6):
                 steps.append(feed(0, "valid", t.next()))
             steps.append({"op": "wait_held", "point": point, "ep": 0})
-            steps.append({"op": "close", "from": "async"})
-            steps.append({"op": "sleep", "ms": 5})
-            steps.append({"op": "release", "point": point, "ep": 0})
         else:
             steps += opens(1)
             steps.append(feed(0, "valid", t.next()))
             steps.append({"op": "quiesce", "ms": 300})
             steps.append({"op": "hold", "point": point, "ep": 0})
-            for j in range(4):
+            for j in range(6):
                 steps.append(feed(0, "valid", t.next()))
             if point == "run.pushClose":
                 steps.append({"op": "read_err", "ep": 0})
             steps.append({"op": "wait_held", "point": point, "ep": 0})
-            steps.append({"op": "close", "from": "async"})
-            steps.append({"op": "sleep", "ms": rng.randint(1, 8)})
-            steps.append({"op": "release", "point": point, "ep": 0})
+        chain = point == "rd.pushOpen"
+        if chain:
+            # the reader, should it go on after its open event was dropped, is parked again before its first frame event
+            # and let go only when the consumer is receiving again
+            pause = True
+            steps.insert(0, {"op": "hold_at_start", "point": "rd.pushEvent", "ep": 0})
+        if pause:
+            steps.append({"op": "consumer", "run": False})
+        steps.append({"op": "close", "from": "async"})
+        steps.append({"op": "sleep", "ms": rng.randint(2, 8)})
+        steps.append({"op": "release", "point": point, "ep": 0})
+        if chain:
+            steps.append({"op": "wait_held", "point": "rd.pushEvent", "ep": 0, "ms": 150})
+        if pause:
+            steps.append({"op": "sleep", "ms": 5})
+            steps.append({"op": "consumer", "run": True})
+        if chain:
+            steps.append({"op": "sleep", "ms": 5})
+            steps.append({"op": "release", "point": "rd.pushEvent", "ep": 0})
         steps.append({"op": "wait_closed"})
-        # half of them on a transport whose queued data stays readable after Close (a pipe-like custom transport)
         out.append({"name": "events_gated/%s/%d" % (point, i), "conf": c,
-                    "endpoints": [{"kind": "custom", "drain": i % 2 == 0}], "steps": steps})
+                    "endpoints": [{"kind": "custom", "drain": True}], "steps": steps})
     return out
 
 
